@@ -262,6 +262,51 @@ theorem setE_ne_nil (es : List (Val × Val)) (k v : Val) : setE es k v ≠ [] :=
     · simp
     · split <;> simp
 
+theorem lookupCells_mem (cells : List (Str × Str × Bool)) (name : Str) :
+    ∀ (k i : Nat) (d : Str) (a : Bool), lookupCells cells name k = some (i, d, a) → (name, d, a) ∈ cells := by
+  induction cells with
+  | nil => intro k i d a h; simp [lookupCells] at h
+  | cons c rest ih =>
+    obtain ⟨n, d', a'⟩ := c
+    intro k i d a h
+    unfold lookupCells at h
+    by_cases hn : (n == name) = true
+    · simp only [hn, if_true, Option.some.injEq, Prod.mk.injEq] at h
+      have : n = name := by simpa using hn
+      simp [this, h.2.1, h.2.2]
+    · simp only [hn, Bool.false_eq_true, if_false] at h
+      exact List.mem_cons_of_mem _ (ih _ _ _ _ h)
+
+/-- on a blank line every named column shows the empty string -/
+theorem blank_dat (r : Row) (hb : r.blank = true) (n d : Str) (h : r.acc.dat n = some d) : d = [] := by
+  simp only [Row.acc, Row.lookup] at h
+  by_cases hn : n.isEmpty = true
+  · simp [hn] at h
+  · simp only [hn, Bool.false_eq_true, if_false, Option.map_eq_some_iff] at h
+    obtain ⟨⟨i, d', a⟩, hl, rfl⟩ := h
+    have hm := lookupCells_mem r.cells n 0 i d' a hl
+    have := List.all_eq_true.mp hb _ hm
+    simp only [Bool.or_eq_true] at this
+    rcases this with h1 | h1
+    · exact absurd h1 hn
+    · simpa using h1
+
+/-- a line that exposes a well-formed row (its key is populated) is not blank -/
+theorem exposes_not_blank (row : Row) (name key : Str) (r : RowSpec) (hwf : r.WF key) (hexp : Exposes row.acc name r) :
+    row.blank = false := by
+  cases hb : row.blank with
+  | false => rfl
+  | true =>
+    obtain ⟨_, hks, _, hvals⟩ := hwf
+    obtain ⟨kv, hkv⟩ := Option.isSome_iff_exists.mp hks
+    have hkwf : wfScalar r.keyCol.kind kv = true := hvals r.keyCol (by simp [RowSpec.cols]) kv hkv
+    have hd := hexp r.keyCol (by simp [RowSpec.cols])
+    have ht : r.keyCol.text = [] := blank_dat row hb _ _ hd
+    simp only [Col.text, hkv] at ht
+    have h1 := C01_scalar_roundtrip r.keyCol.kind kv hkwf
+    rw [ht, C01_blank_absent] at h1
+    simp at h1
+
 /-- **C01_vertical_map_sheet_partial**: a worksheet whose single top-level field is a vertical map with scalar
 columns, over data lines `i, i+1, …` that expose the well-formed rows `rs` with pairwise different keys (none of
 them in the map yet): the line loop returns the message with exactly that map field, holding the entries of all
@@ -289,7 +334,8 @@ theorem C01_vertical_map_sheet_partial (c : Ctx) (num : Nat) (name key protoName
       rw [getMap_setMap_nil]; exact hnew r (by simp)
     have hstep := vmap_row c (cols.row i (first + i) tr).acc num name key protoName r (setMap [] num es) hr.1 hexp0 hnew0
     simp only [vmapField, hfields, getMap_setMap_nil] at hstep
-    simp only [List.length_cons, parseLines, parseFields, hstep, bind, Except.bind, pure, Except.pure]
+    have hnb := exposes_not_blank (cols.row i (first + i) tr) name key r hr.1 hexp0
+    simp only [List.length_cons, parseLines, hnb, Bool.false_eq_true, if_false, parseFields, hstep, bind, Except.bind, pure, Except.pure]
     rw [setMap_single num es _ (setE_ne_nil _ _ _)]
     have hd := List.pairwise_cons.mp hdist
     have := ih (i + 1) (setE es r.key r.entry)
